@@ -112,7 +112,7 @@ def SizeSubst (v : Nat) (args : Fun.Terms) : Prop :=
 def SizeClauses (v : Nat) (cs : Fun.Clauses) : Prop :=
   ∀ cont st cs' st', compileClauses cs cont st = .ok (cs', st') →
     Grows v (funSizeClauses cs) (clausesLen cs * termSize cont)
-      (clausesSize cs' + clausesLen cs * W v) st st'
+      (clausesSize cs' + clausesLen cs * W v + (clausesNames cs).length * W v) st st'
 def SizeCoclauses (v : Nat) (cs : Fun.Clauses) : Prop :=
   ∀ st cs' st', compileCoclauses cs st = .ok (cs', st') →
     Grows v (funSizeClauses cs) 0 (clausesSize cs') st st'
@@ -163,6 +163,35 @@ theorem size_of_tight {v : Nat} {t : Fun.Term} {m : Nat} (hm : funSize t = 1 + m
   · refine (hc _ _ _ _ h).weaken fun D hD => ?_
     simp only [hm, Nat.add_mul, Nat.one_mul] at *
     omega
+
+/-- the capture guard of `let` / `case`: every level of re-entry costs 3 more nodes -/
+theorem guardedLvl_size {v n k X : Nat} {binders : List String} {ty : Option Fun.Ty} {site : String}
+    {core : CwcFn}
+    (hcore : ∀ c st s st', core c st = .ok (s, st') →
+      Grows v n (termSize c + k) (stmtSize s + 2 + X) st st') :
+    ∀ lvl c st s st', guardedLvl binders ty site core lvl c st = .ok (s, st') →
+      Grows v n (termSize c + k + 3 * lvl) (stmtSize s + 2 + X) st st'
+  | 0, c, st, s, st', h => by simp [guardedLvl_zero] at h
+  | lvl + 1, c, st, s, st', h => by
+    rw [guardedLvl_succ] at h
+    split at h
+    · cases ty with
+      | none => simp at h
+      | some t =>
+        simp only [defaultCompile_eq] at h
+        cases hx : guardedLvl binders (some t) site core lvl
+            (.var .cns ⟨(freshCovar st).1, 0⟩ (compileTy t)) (freshCovar st).2 with
+        | error e => simp [hx] at h
+        | ok r =>
+          obtain ⟨s1, st1⟩ := r
+          simp only [hx, Except.ok.injEq, Prod.mk.injEq] at h
+          obtain ⟨rfl, rfl⟩ := h
+          have g := Grows.of_lifted_eq (freshCovar_lifted st) (guardedLvl_size hcore lvl _ _ _ _ hx)
+          refine g.weaken fun D hD => ?_
+          simp only [stmtSize, termSize] at *
+          omega
+    · refine (hcore _ _ _ _ h).weaken fun D hD => ?_
+      omega
 
 /-! ## C19-T1: the mutual induction -/
 
@@ -351,10 +380,10 @@ theorem size_term (v : Nat) : ∀ t : Fun.Term, SizeCwc v t ∧ SizeComp v t
     have hbc := (size_term v bound).1
     have hbp := (size_term v bound).2
     have hi := (size_term v body).1
-    have hcwc : SizeCwc v (.letIn x varTy bound body ty) := by
+    have hcore : ∀ c st s st', letCore x varTy bound body c st = .ok (s, st') →
+        Grows v (funSize bound + funSize body) (termSize c + 2) (stmtSize s + 2 + 0) st st' := by
       intro c st s st' h
-      have hW := W_ge v
-      rw [cwc_letIn] at h
+      unfold letCore at h
       cases hx : compileWithCont body c st with
       | error e => simp [hx] at h
       | ok r1 =>
@@ -368,11 +397,18 @@ theorem size_term (v : Nat) : ∀ t : Fun.Term, SizeCwc v t ∧ SizeComp v t
             simp only [hy, Except.ok.injEq, Prod.mk.injEq] at h
             obtain ⟨rfl, rfl⟩ := h
             refine ((hi _ _ _ _ hx).trans (hbp _ _ _ _ hy)).weaken fun D hD => ?_
-            simp only [stmtSize, termSize, funSize, Nat.add_mul, Nat.one_mul] at *
+            simp only [stmtSize, termSize, Nat.add_mul] at *
             omega
         · refine ((hi _ _ _ _ hx).trans (hbc _ _ _ _ h)).weaken fun D hD => ?_
-          simp only [termSize, funSize, Nat.add_mul, Nat.one_mul] at *
+          simp only [termSize, Nat.add_mul] at *
           omega
+    have hcwc : SizeCwc v (.letIn x varTy bound body ty) := by
+      intro c st s st' h
+      have hW := W_ge v
+      rw [cwc_letIn] at h
+      refine (guardedLvl_size hcore _ _ _ _ _ h).weaken fun D hD => ?_
+      simp only [funSize, List.length_cons, List.length_nil, Nat.add_mul, Nat.one_mul] at *
+      omega
     exact ⟨hcwc, sizeComp_default hcwc (fun _ _ => rfl)⟩
   | .call name args retTy => by
     have hs := size_subst v args
@@ -439,10 +475,12 @@ theorem size_term (v : Nat) : ∀ t : Fun.Term, SizeCwc v t ∧ SizeComp v t
   | .case scrutinee tyArgs clauses ty => by
     have hcl := size_clauses v clauses
     have hsc := (size_term v scrutinee).1
-    have hcwc : SizeCwc v (.case scrutinee tyArgs clauses ty) := by
+    have hcore : ∀ c st s st', caseCore scrutinee clauses c st = .ok (s, st') →
+        Grows v (funSize scrutinee + funSizeClauses clauses) (termSize c + (v + 4))
+          (stmtSize s + 2 + (clausesNames clauses).length * W v) st st' := by
       intro c st s st' h
       have hW := W_ge v
-      rw [cwc_case] at h
+      unfold caseCore at h
       obtain ⟨new0, hn0, hb0⟩ := shareIf_grows v (decide (clausesLen clauses ≤ 1) || isLeaf c) c st
       generalize (if (decide (clausesLen clauses ≤ 1) || isLeaf c) = true then (c, st)
         else share c st) = r at h hn0 hb0
@@ -462,7 +500,7 @@ theorem size_term (v : Nat) : ∀ t : Fun.Term, SizeCwc v t ∧ SizeComp v t
           have c1 := b1 (fun d hd => hA d (by simp [hd]))
           have c2 := b2 (fun d hd => hA d (by simp [hd]))
           obtain ⟨c01, c02, c03⟩ := c0
-          simp only [defsSize_append, termSize, funSize, Nat.add_mul, Nat.one_mul] at *
+          simp only [defsSize_append, termSize, Nat.add_mul] at *
           cases hl : (decide (clausesLen clauses ≤ 1) || isLeaf c)
           · have h5 := c01 hl
             simp only [hl] at c03
@@ -482,6 +520,15 @@ theorem size_term (v : Nat) : ∀ t : Fun.Term, SizeCwc v t ∧ SizeComp v t
               have : clausesLen clauses * termSize c ≤ clausesLen clauses * W v :=
                 Nat.mul_le_mul_left _ (by omega)
               omega
+    have hcwc : SizeCwc v (.case scrutinee tyArgs clauses ty) := by
+      intro c st s st' h
+      have hW := W_ge v
+      rw [cwc_case] at h
+      have hb : (clausesNames clauses).length * 3 ≤ (clausesNames clauses).length * W v :=
+        Nat.mul_le_mul_left _ (by omega)
+      refine (guardedLvl_size hcore _ _ _ _ _ h).weaken fun D hD => ?_
+      simp only [funSize, Nat.add_mul, Nat.one_mul, Nat.mul_add] at *
+      omega
     exact ⟨hcwc, sizeComp_default hcwc (fun _ _ => rfl)⟩
   | .new clauses ty => by
     have hs := size_coclauses v clauses
@@ -511,10 +558,10 @@ theorem size_term (v : Nat) : ∀ t : Fun.Term, SizeCwc v t ∧ SizeComp v t
       intro c st s st' h
       have hW := W_ge v
       rw [cwc_goto] at h
-      cases ty with
-      | none => simp at h
+      cases hg : getType t with
+      | none => simp [hg] at h
       | some gty =>
-        simp only at h
+        simp only [hg] at h
         refine (ht _ _ _ _ h).weaken fun D hD => ?_
         simp only [termSize, funSize, Nat.add_mul, Nat.one_mul] at *
         omega
@@ -630,7 +677,7 @@ theorem size_clauses (v : Nat) : ∀ cs : Fun.Clauses, SizeClauses v cs
     rw [clauses_nil] at h
     simp only [Except.ok.injEq, Prod.mk.injEq] at h
     obtain ⟨rfl, rfl⟩ := h
-    exact Grows.refl _ _ _ _ _ (by simp [clausesSize, clausesLen])
+    exact Grows.refl _ _ _ _ _ (by simp [clausesSize, clausesLen, clausesNames])
   | .cons pol xtor names ctx body rest => by
     have hb := (size_term v body).1
     have hr := size_clauses v rest
@@ -650,8 +697,8 @@ theorem size_clauses (v : Nat) : ∀ cs : Fun.Clauses, SizeClauses v cs
         simp only [hy, Except.ok.injEq, Prod.mk.injEq] at h
         obtain ⟨rfl, rfl⟩ := h
         refine ((hb _ _ _ _ hx).trans (hr _ _ _ _ hy)).weaken fun D hD => ?_
-        simp only [clausesSize, clausesLen, funSizeClauses, compileContext, List.length_map,
-          Nat.add_mul, Nat.one_mul] at *
+        simp only [clausesSize, clausesLen, clausesNames, funSizeClauses, compileContext,
+          List.length_map, List.length_append, Nat.add_mul, Nat.one_mul] at *
         omega
 theorem size_coclauses (v : Nat) : ∀ cs : Fun.Clauses, SizeCoclauses v cs
   | .nil => by
